@@ -202,4 +202,18 @@ mod verif_proofs {
         assert!(NormalizedCoord::MIN.to_f2dot14().to_f32() == -1.0 && NormalizedCoord::MAX.to_f2dot14().to_f32() == 1.0, "VK_ASSERT extremes_exact_in_f2dot14");
         vk_cover!(v == 0.75, "a fractional grid value");
     }
+
+    /// user coordinates reach fvar as 16.16 Fixed: inside the representable range the stored value is the nearest
+    /// 1/65536 step (what "fvar min/default/max are the source's bounds" can mean for non-integer bounds)
+    #[cfg_attr(kani, kani::proof)]
+    #[cfg_attr(kani, kani::unwind(3))]
+    pub(super) fn c08_user_coord_to_fixed_in_range() {
+        let v = vk::finite_f64(1.0e9);
+        vk::assume(v > -32768.0 && v < 32767.0);
+        let f: Fixed = UserCoord::new(v).into();
+        let back = f.to_f64();
+        assert!((back - v).abs() <= 1.0 / 131072.0, "VK_ASSERT user_coord_stored_to_nearest_fixed_step");
+        if v == v.floor() { assert!(back == v, "VK_ASSERT integer_user_coord_exact_in_fixed"); }
+        vk_cover!(v != v.floor() && v > 900.0, "a fractional coordinate");
+    }
 }
